@@ -52,6 +52,7 @@ void (*sched_on_wait_entry)(int tid, struct env_wait *w);
 void (*sched_on_wait_return)(int tid, struct env_wait *w, int n);
 long sched_max_points;
 int sched_signal_atomic = 1;
+int sched_fault_eintr;
 long sched_points;
 
 /* ---------------------------------------------------------------- futex */
@@ -530,6 +531,12 @@ static int s_wait(struct env_wait *w)
 	env_compute_deadlines(w);
 	if (sched_on_wait_entry)
 		sched_on_wait_entry(me, w);
+	if (sched_fault_eintr && mc_choose(2, MC_FAULT, "wait-eintr")) {
+		if (sched_on_wait_return)
+			sched_on_wait_return(me, w, -1);
+		errno = EINTR;
+		return -1;
+	}
 	if (w->timeout_ns == 0) {
 		point(OP_RUN, NULL, 0, "poll0");
 		n = env_real_poll0(w);
